@@ -350,27 +350,54 @@ pub fn verify_script_dump(m: &rpm::PackageMetadata) -> String {
     format!("verify={},{},{}", script, flags, prog)
 }
 
+/// `build()`, or — `sgn=bs` — `build_and_sign(signer)`, or — `sgn=b+s` — `build()` then `Package::sign(&signer)`
+/// (Ed25519 test key; the main header, the lead and the payload must not depend on which of the three is used)
+pub fn build_pkg(b: rpm::PackageBuilder, tokens: &[&str]) -> Result<rpm::Package, rpm::Error> {
+    let sgn = tokens.iter().find_map(|t| t.strip_prefix("sgn="));
+    let signer = || -> Result<rpm::signature::pgp::Signer, rpm::Error> {
+        let key = std::fs::read("/repo/tests/assets/signing_keys/secret_ed25519.asc")?;
+        rpm::signature::pgp::Signer::load_from_asc_bytes(&key)
+    };
+    match sgn {
+        Some("bs") => b.build_and_sign(signer()?),
+        Some("b+s") => {
+            let mut p = b.build()?;
+            p.sign(&signer()?)?;
+            Ok(p)
+        }
+        _ => b.build(),
+    }
+}
+
+/// the part of the `build` observation in front of ` || `: digests of payload and (independently decompressed) archive, FNV of
+/// lead / signature header (`signed` for a signed package: the signature bytes are not predicted) / main header, re-parse equality
+pub fn observe_head(pkg: &rpm::Package, tokens: &[&str]) -> Result<(String, rpm::Package), rpm::Error> {
+    let mut bytes = Vec::new();
+    pkg.write(&mut bytes)?;
+    let p2 = rpm::Package::parse(&mut &bytes[..])?;
+    let o = p2.metadata.get_package_segment_offsets();
+    let (s, h, pl) = (o.signature_header as usize, o.header as usize, o.payload as usize);
+    let arch = decompress(comp_kind(tokens), &bytes[pl..]);
+    let signed = tokens.iter().any(|t| t.starts_with("sgn="));
+    let head = format!(
+        "ok paysha={} archsha={} lead={:016x} sig={} hdr={:016x} hlen={} same={}",
+        sha256_hex(&bytes[pl..]),
+        arch.as_ref().map(|a| sha256_hex(a)).unwrap_or("undecodable".into()),
+        fnv(&bytes[..s]),
+        if signed { "signed".to_string() } else { format!("{:016x}", fnv(&bytes[s..h])) },
+        fnv(&bytes[h..pl]), pl - h,
+        p2.metadata == pkg.metadata && p2.content == pkg.content,
+    );
+    Ok((head, p2))
+}
+
 /// `build …` observation
 pub fn observe_build(tokens: &[&str]) -> String {
     let r = (|| -> Result<String, rpm::Error> {
         let b = builder_from(tokens)?;
-        let pkg = b.build()?;
-        let mut bytes = Vec::new();
-        pkg.write(&mut bytes)?;
-        let p2 = rpm::Package::parse(&mut &bytes[..])?;
-        let o = p2.metadata.get_package_segment_offsets();
-        let (s, h, pl) = (o.signature_header as usize, o.header as usize, o.payload as usize);
-        let kind = comp_kind(tokens);
-        let arch = decompress(kind, &bytes[pl..]);
-        Ok(format!(
-            "ok paysha={} archsha={} lead={:016x} sig={:016x} hdr={:016x} hlen={} same={} || {} {}",
-            sha256_hex(&bytes[pl..]),
-            arch.as_ref().map(|a| sha256_hex(a)).unwrap_or("undecodable".into()),
-            fnv(&bytes[..s]), fnv(&bytes[s..h]), fnv(&bytes[h..pl]), pl - h,
-            p2.metadata == pkg.metadata && p2.content == pkg.content,
-            crate::c05::dump(&p2.metadata),
-            verify_script_dump(&p2.metadata)
-        ))
+        let pkg = build_pkg(b, tokens)?;
+        let (head, p2) = observe_head(&pkg, tokens)?;
+        Ok(format!("{} || {} {}", head, crate::c05::dump(&p2.metadata), verify_script_dump(&p2.metadata)))
     })();
     cleanup();
     match r { Ok(s) => s, Err(_) => "err".into() }
